@@ -75,6 +75,7 @@ def preset(pid, tier):
         return dict(
             mc=aol(MaxDeliver=5 if q else 6, NextKinds=ALL_NEXT, MaxHeight=3),
             props=['P_C01', 'P_C08', 'P_C10'], invs=['I_C01'],
+            tour=aol(Accts=S(['a1', 'a2']), Topics=S(['t1']), ViewTopics=S(['t1']), MaxDeliver=4 if q else 5, MaxHeight=2),
             sims=[sim(aol(Accts=S(['a1', 'a2', 'a3', 'a4']), Topics=S(['t1', 't2', 't3']), ViewTopics=S(['t1', 't2', 't3']), RecKeys=S(['k1', 'k2', '']), RecVals=S(['v1', 'v2', '']),
                           MaxDeliver=40, MaxHeight=8, NextKinds=ALL_NEXT_R, FailKeep=40), 120 if q else 2000, 50),
                   sim(aol(MaxDeliver=12, MaxHeight=6, NextKinds=ALL_NEXT, FailKeep=10), 80 if q else 1500, 25, genesis=dict(mint=True))])
@@ -83,14 +84,20 @@ def preset(pid, tier):
             mc=aol(Topics=S(['t1']), ViewTopics=S(['t1']), RecVals=S(['v1']), SignerSets='all', FeePayers=S(['none', 'a1', 'a2']), MaxDeliver=4 if q else 5,
                    ExecOn=True, Kinds=AOL_KINDS | S(['authz.Grant']), MaxHeight=2),
             props=['P_C02'], invs=[],
-            tour=aol(Accts=S(['a1', 'a2', 'a3']), Topics=S(['t1']), ViewTopics=S(['t1']), RecVals=S(['v1']), SignerSets='all', FeePayers=S(['none', 'a1', 'a2']),
-                     MaxDeliver=3 if q else 4, MaxHeight=2, ExecOn=False),
+            tour=[dict(constants=aol(Accts=S(['a1', 'a2', 'a3']), Topics=S(['t1']), ViewTopics=S(['t1']), RecVals=S(['v1']), SignerSets='all', FeePayers=S(['none', 'a1', 'a2']),
+                                     MaxDeliver=3 if q else 4, MaxHeight=2, ExecOn=False)),
+                  # rollback probes: [m1, m2, always-failing] for every ordered pair, then the whole alphabet again - in the same process
+                  dict(constants=aol(Accts=S(['a1', 'a2']), Topics=S(['t1']), ViewTopics=S(['t1']), RecVals=S(['v1']), MaxDeliver=2 if q else 3, MaxHeight=2), probes=True)],
             sims=[sim(aol(Accts=S(['a1', 'a2', 'a3', 'a4']), SignerSets='all', FeePayers=S(['none', 'a1', 'a2', 'a3']), ExecOn=True,
-                          Kinds=AOL_KINDS | S(['authz.Grant', 'authz.Revoke']), Fees=S([0, 1]), MaxDeliver=40, MaxHeight=6, FailKeep=8), 150 if q else 3000, 40)])
+                          Kinds=AOL_KINDS | S(['authz.Grant', 'authz.Revoke']), Fees=S([0, 1]), MaxDeliver=40, MaxHeight=6, FailKeep=8), 150 if q else 3000, 40),
+                  # three-message transactions over one topic: work done by the first messages and rolled back by a failing last one must leave no authorisation behind
+                  sim(aol(Accts=S(['a1', 'a2', 'a3']), Topics=S(['t1']), ViewTopics=S(['t1']), RecVals=S(['v1']), MaxTxLen=3, MaxDeliver=25, MaxHeight=5, FailKeep=2, SimSample=36),
+                      60 if q else 1200, 30)])
     if pid == 'C13':
         return dict(
             mc=aol(MaxDeliver=5 if q else 6, MaxHeight=2),
             props=[], invs=['I_C13'],
+            tour=aol(Accts=S(['a1', 'a2']), Topics=S(['t1', 't2']) if not q else S(['t1']), ViewTopics=S(['t1', 't2']), RecVals=S(['v1']), MaxDeliver=4 if q else 5, MaxHeight=2),
             sims=[sim(aol(Accts=S(['a1', 'a2', 'a3', 'a4']), Topics=S(['t1', 't2', 't3', 't4']), ViewTopics=S(['t1', 't2', 't3', 't4']),
                           MaxDeliver=50, MaxHeight=5, FailKeep=60), 60 if q else 1000, 60, views='full')])
     if pid == 'C15':
@@ -102,7 +109,10 @@ def preset(pid, tier):
         big = copy.deepcopy(c)
         big.update(Accts=S(['a1', 'a2', 'a3']), FeePayers=S(['none', 'a1', 'a3']), MaxDeliver=20, MaxHeight=5, FailKeep=2,
                    Kinds=kinds | S(['aol.DeleteWriter']), DocNames=S(['A1', 'A2']), Keys=S(['k1', 'k2']))
-        return dict(mc=c, props=['P_C15'], invs=[], sims=[sim(big, 100 if q else 2000, 30)], mc_timeout=2400)
+        # rollback probes over a one-account mixed alphabet: [m1, m2, always-failing] must leave nothing behind, in the stores or in process memory
+        pr = mk(Topics=S(['t1']), ViewTopics=S(['t1']), RecVals=S(['v1']), Accts=S(['a1']), Dids=S(['d1']), ViewDids=S(['d1']), Keys=S(['k1']), VmNames=S(['v1']), DocNames=S(['A1']),
+                Seqs=S([0]), DenomIds=S(['n1']), TokenIds=S(['i1']), DNames=S(['x']), ViewDenoms=S(['n1']), ViewTokens=S(['i1']), Kinds=kinds, MaxDeliver=2 if q else 3, MaxHeight=2)
+        return dict(mc=c, props=['P_C15'], invs=[], tour=[dict(constants=pr, probes=True)], sims=[sim(big, 100 if q else 2000, 30)], mc_timeout=2400)
     if pid in ('C03', 'C04', 'C05', 'C11'):
         props = {'C03': ['P_C03'], 'C04': ['P_C04'], 'C05': ['P_C05', 'P_C08', 'P_C10'], 'C11': []}[pid]
         invs = {'C03': [], 'C04': ['I_C04'], 'C05': ['I_C05'], 'C11': ['I_C11']}[pid]
@@ -121,8 +131,14 @@ def preset(pid, tier):
         simc = pn(Accts=S(['a1', 'a2', 'a3', 'a4']), DenomIds=S(['n1', 'n2', 'n3', 'nz']), TokenIds=S(['i1', 'i2', 'i3', 'iz']), ViewDenoms=S(['n1', 'n2', 'n3', 'nz']),
                   ViewTokens=S(['i1', 'i2', 'i3', 'iz']),
                   DNames=S(['x', 'y']), TDescs=S(['', 'q']), SignerSets='all', ExecOn=True, Kinds=PN_KINDS | S(['authz.Grant']), MaxDeliver=40, MaxHeight=6, NextKinds=ALL_NEXT, FailKeep=30)
-        tourc = pn(Accts=S(['a1', 'a2', 'a3']) if pid == 'C06' else S(['a1', 'a2']), SignerSets='all' if pid == 'C06' else 'exact', DenomIds=S(['n1', 'n2']) if pid == 'C12' else S(['n1']),
-                   TokenIds=S(['i1']), ViewDenoms=S(['n1', 'n2']), ViewTokens=S(['i1']), MaxDeliver=3 if q else 4, MaxHeight=2)
+        if pid == 'C06':
+            # prefix-related denom ids ("a", "ab") owned by different accounts, every signer set
+            tourc = pn(Accts=S(['a1', 'a2']), SignerSets='all', DenomIds=S(['n1', 'n2']), TokenIds=S(['i1']), ViewDenoms=S(['n1', 'n2']), ViewTokens=S(['i1']),
+                       MaxDeliver=3 if q else 4, MaxHeight=2)
+        else:
+            # two tokens in one denom with empty and non-empty optional fields; every listing is compared with the single-item view after each step
+            tourc = pn(Accts=S(['a1', 'a2']), DenomIds=S(['n1']) if q else S(['n1', 'n2']), TokenIds=S(['i1', 'i2']), TDescs=S(['', 'q']), ViewDenoms=S(['n1', 'n2']),
+                       ViewTokens=S(['i1', 'i2']), MaxDeliver=3 if q else 4, MaxHeight=2)
         # a generator that believes NUL-bearing identifiers are fine: long chains of messages over aliasing pairs (nz,iy)/(n1,iz).
         # The judge (Trace.tla) keeps the intended behaviour: on a correct tree every such message is a predicted stateless rejection.
         hostile = pn(Accts=S(['a1', 'a2']), DenomIds=S(['n1', 'nz']), TokenIds=S(['iz', 'iy']), ViewDenoms=S(['n1', 'nz']), ViewTokens=S(['iz', 'iy']),
@@ -145,7 +161,10 @@ def preset(pid, tier):
                   Dids=S(['d1', 'd2']), ViewDids=S(['d1', 'd2']), Keys=S(['k1', 'k2']), VmNames=S(['v1', 'v2']), DocNames=S(['A1', 'A2', 'B12', 'C1', 'D2']),
                   DenomIds=S(['n1', 'n2', 'n3']), TokenIds=S(['i1', 'i2', 'i3']), DNames=S(['x', 'y']), TDescs=S(['', 'q']), ViewDenoms=S(['n1', 'n2', 'n3']), ViewTokens=S(['i1', 'i2', 'i3']),
                   Kinds=allk, MaxDeliver=60, MaxHeight=8, NextKinds=S(['BeginBlock', 'ExportImportBegin']), FailKeep=40)
-        return dict(mc=mcc, props=['P_C08'], invs=[], sims=[sim(simc, 120 if q else 2500, 70)], mc_timeout=2400)
+        # generator that believes '/' is fine in topic names (the genesis key separator); the judge keeps the published alphabet
+        slash = aol(Accts=S(['a1', 'a2']), Topics=S(['t1', 'ts']), ViewTopics=S(['t1', 'ts']), MaxDeliver=12, MaxHeight=5, NextKinds=S(['BeginBlock', 'ExportImportBegin']),
+                    FailKeep=30, Deviations=S(['slashtopics']))
+        return dict(mc=mcc, props=['P_C08'], invs=[], sims=[sim(simc, 120 if q else 2500, 70), sim(slash, 30 if q else 400, 30)], mc_timeout=2400)
     raise KeyError(pid)
 
 
